@@ -210,7 +210,14 @@ def op_readback(case, o):
     if rk == "ravel":
         return proj_any(a.ravel(), wide, "flat")
     if rk == "astype":
-        return proj_ragged(a.astype(DT2NP[reader[1]]), wide)
+        b = a.astype(DT2NP[reader[1]])
+        out = proj_ragged(b, wide)
+        if b.size:                                  # the converted array is an array of its own: writing to it leaves the source alone
+            before = snapshot(a)
+            b[...] = np.array(SENT[kind(reader[1])]).astype(DT2NP[reader[1]])
+            if not same_snap(before, snapshot(a)):
+                return ["mutated", "writing to the converted array changed the source"]
+        return out
     if rk == "to_numpy":
         return proj_any(a.to_numpy_array(), wide)
     if rk == "save_load":
@@ -245,11 +252,14 @@ def op_readback(case, o):
 def op_getitem(case, o):
     arr, rsel, csel = case[1], case[2], case[3]
     a = build(arr, o.get("via", "flat"))
+    before = snapshot(a) if o.get("via", "flat") != "flat" else None
     idx = py_index(rsel, csel, o.get("spelling", "plain"))
     r = a[idx]
     out = proj_any(r, o.get("wide", False))
     if out[0] == "flat" and rsel[0] in ("int", "npint") and csel[0] != "int":
         out[0] = "row"
+    if before is not None and not same_snap(before, snapshot(a)):          # C10: indexing changes nothing
+        return ["mutated", "indexing changed the indexed array"]
     return out
 
 
@@ -294,6 +304,8 @@ def py_operand(opd, o):
 
 
 def snapshot(x):
+    if isinstance(x, RaggedArray) and False:
+        pass
     if isinstance(x, RaggedArray):
         y = copy.deepcopy(x)
         return ("ra", str(y.dtype), [r.tolist() for r in y])
